@@ -138,6 +138,15 @@ def observe(c):
             except Exception as e:  # noqa: BLE001
                 V("matmul", f"A[..] @ X[{xdt}] raised {type(e).__name__}: {str(e)[:150]}", xdt=xdt,
                   **common.exc_info(e))
+        # left products (X @ A[..]) with real and complex operands
+        for xdt in dict.fromkeys([dt, "c64" if dt in ("f32", "c64") else "c128"]):
+            Xl = opsfam.rhs_for(exp.shape[0], 2, xdt, salt + 7).T.copy()
+            try:
+                ok, msg = build.arr_close(Xl @ R, Xl.astype(np.complex128) @ exp, opsfam.PROMOTE[(dt, xdt)])
+                if not ok:
+                    V("rmatmul", f"X[{xdt}] @ A[..]: {msg}", xdt=xdt)
+            except Exception as e:  # noqa: BLE001
+                V("rmatmul", f"X[{xdt}] @ A[..] raised {type(e).__name__}: {str(e)[:150]}", xdt=xdt, **common.exc_info(e))
         # the same lazy slice multiplied into two operands while the first result is still held: results of earlier
         # products must not change (buffers reused between calls)
         try:
